@@ -29,6 +29,7 @@ func TestVerif_C37_Provider(t *testing.T) {
 	rec := vstat.New(t, "C37", "provider",
 		"real Store + Provider with retries {0,1,3,6} x interval {2,10 ms} x vacuum x compress; 3..8 steps of (write, Provide) with the snapshot gate free, held and released after a generated delay (within or beyond the retry budget), or held throughout; non-trivial = some Provide ran with the gate held at its start; distinct by parameters + step list")
 	rapid.Check(t, func(rt *rapid.T) {
+		defer g8bRecoverInfra(rec, t)
 		vacuum := rapid.Bool().Draw(rt, "vacuum")
 		compress := rapid.Bool().Draw(rt, "compress")
 		nRetries := rapid.SampledFrom([]int{0, 1, 3, 6}).Draw(rt, "nRetries")
@@ -49,19 +50,19 @@ func TestVerif_C37_Provider(t *testing.T) {
 
 		dir, err := os.MkdirTemp("", "c37p-")
 		if err != nil {
-			rt.Skip("tempdir")
+			g8bInfra("tempdir")
 		}
 		defer os.RemoveAll(dir)
 		n, err := g8bOpenSingle("", filepath.Join(dir, "node"), nil)
 		if err != nil {
 			t.Logf("infrastructure: %v", err)
-			rt.Skip("store did not come up")
+			g8bInfra("store did not come up")
 		}
 		defer n.Close()
 		s := n.S
 		model, err := vsql.OpenMem()
 		if err != nil {
-			rt.Skip("model")
+			g8bInfra("model")
 		}
 		defer model.Close()
 		both := func(stmts ...string) bool {
@@ -77,7 +78,7 @@ func TestVerif_C37_Provider(t *testing.T) {
 			return true
 		}
 		if !both("CREATE TABLE t(id INTEGER PRIMARY KEY, v TEXT)", "INSERT INTO t(v) VALUES('init')") {
-			rt.Skip("setup")
+			g8bInfra("setup")
 		}
 		p := NewProvider(s, vacuum, compress)
 		p.nRetries, p.retryInterval = nRetries, interval
@@ -89,12 +90,12 @@ func TestVerif_C37_Provider(t *testing.T) {
 			// a write: the index advances and the WAL is non-empty, so a busy gate
 			// makes the backup fail immediately instead of waiting for the gate
 			if !both(fmt.Sprintf("INSERT INTO t(v) VALUES('s%d')", i)) {
-				rt.Skip("write failed")
+				g8bInfra("write failed")
 			}
 			released := make(chan struct{})
 			if st.Gate != "free" {
 				if err := s.snapshotCAS.Begin("snapshot"); err != nil {
-					rt.Skip("gate unexpectedly busy")
+					g8bInfra("gate unexpectedly busy")
 				}
 				nontrivial = true
 				if st.Gate == "release" {
@@ -107,7 +108,7 @@ func TestVerif_C37_Provider(t *testing.T) {
 			}
 			f, err := os.CreateTemp(dir, "provide-")
 			if err != nil {
-				rt.Skip("tempfile")
+				g8bInfra("tempfile")
 			}
 			perr := p.Provide(f)
 			switch st.Gate {
